@@ -228,7 +228,12 @@ class _Lagrangian:
             estimator = clone(estimator=self.estimator, safe=False)
 
         oracle_call_start_time = time()
-        estimator.fit(self.constraints.X, redY, **{self.sample_weight_name: redW})
+        if len(redY_unique) == 1:
+            # the constant classifier takes plain `sample_weight`, whatever name the
+            # user's estimator expects
+            estimator.fit(self.constraints.X, redY, sample_weight=redW)
+        else:
+            estimator.fit(self.constraints.X, redY, **{self.sample_weight_name: redW})
         self.oracle_execution_times.append(time() - oracle_call_start_time)
         self.n_oracle_calls += 1
 
